@@ -207,6 +207,19 @@ inductive Error where
   | other (tag : String)
 deriving Repr, DecidableEq, Inhabited
 
+/-- `fmt.Errorf("…%w…", e)`: a non-nil error that `errors.Is` sees through (the class of the wrapped error is kept; the
+    message is not modelled); wrapping `nil` gives a plain error -/
+def Error.wrap (tag : String) : Error → Error
+  | .nil => .other tag
+  | e => e
+
+/-- `errors.Is(e, target)` for the sentinel targets the subset knows (`io.EOF`, `io.ErrUnexpectedEOF`) -/
+def Error.is (e target : Error) : Bool :=
+  match target with
+  | .eof => e == .eof
+  | .unexpectedEOF => e == .unexpectedEOF
+  | _ => false
+
 /-- an `io.ReaderAt`: `ReadAt(p, off)` with `len(p) = n` as a function `(n, off) ↦ (bytes read, err)`; the bytes read are
     the new front of `p`.  The io.ReaderAt contract (`n < len(p) ⇒ err ≠ nil`, at most `len(p)` bytes) is a hypothesis
     of the theorems that need it, not part of the type. -/
